@@ -299,7 +299,7 @@ func runC19(ctx *report.Ctx) {
 		{`bool("")`, nil, true}, {`bool("abc")`, nil, true}, {`bool("yes")`, nil, true}, {`bool("2.5")`, nil, true}, {`bool("maybe")`, nil, true},
 		{`number(" 1")`, nil, false}, {`number("1e3")`, nil, false}, {`bool("1")`, nil, false}, {`bool("TRUE")`, nil, false}, {`number(true)`, nil, false}, {`bool(1)`, nil, false}, {`string(1.5)`, sv("1.5"), false}, {`string(3)`, sv("3"), false}, {`string(true)`, sv("True"), false},
 	}
-	// CONV2: two conversions alternating on one runner, each evaluated twice (E1 E2 E1 E2): what a conversion yields - a
+	// CONV2: two conversions alternating on one runner, each statement executed twice (E1 E2, then the node is entered again: E1 E2): what a conversion yields - a
 	// value or an error - does not depend on what was converted (or refused) before, nor on how often
 	convs2 := append(append([]conv{}, convs...),
 		conv{`string("ab") + "c"`, sv("abc"), false}, conv{`"c" + string("ab")`, sv("cab"), false}, conv{`string("ab") + string("ab")`, sv("abab"), false},
@@ -313,10 +313,11 @@ func runC19(ctx *report.Ctx) {
 		pair := []conv{convs2[i1], convs2[i2]}
 		var b strings.Builder
 		b.WriteString("title: A\n---\n")
-		for k := 0; k < 4; k++ {
-			b.WriteString("<<call cap(" + pair[k%2].expr + ")>>\nm\n")
+		// the two statements are executed twice each: the node is entered again through a jump
+		for k := 0; k < 2; k++ {
+			b.WriteString("<<call cap(" + pair[k].expr + ")>>\nm\n")
 		}
-		b.WriteString("===\n")
+		b.WriteString("<<jump A>>\n===\n")
 		w := fmt.Sprintf("conversions in a row: %s, %s, %s, %s", pair[0].expr, pair[1].expr, pair[0].expr, pair[1].expr)
 		ctx.Current("CONV2: " + w)
 		r, err, pan := yc.NewReal([]string{b.String()}, "abc", nil)
